@@ -55,8 +55,14 @@ def oracle(case: Any, orders: List[List[int]], dumps: List[Any]) -> Optional[Dic
 
 
 # ------------------------------------------------------------------ known findings: which class a violation is in
-def stale_reference_classes(case: Any) -> List[Tuple[int, str, int]]:
-    """(module, class name, base position) of classes whose base expression starts with a name that the module
+def final_key(case: Any, fn: List[str], rx: Dict[Tuple[int, str], Any], mi: int, name: str) -> str:
+    """Where the object defined as `name` in module mi is documented: under its (single) re-exporter if it has one."""
+    r = rx.get((mi, name))
+    return fn[r['R']] + '.' + r['n'] if r else fn[mi] + '.' + name
+
+
+def stale_reference_classes(case: Any) -> List[Tuple[str, int]]:
+    """(final key of the class, base position) of classes whose base expression starts with a name that the module
     binds by `from D import x` / `from D import *` where (D, x) is re-exported by another module."""
     fn = P.fullnames(case)
     rx = {(r['D'], r['x']): r for r in P.reexports(case)}
@@ -69,8 +75,24 @@ def stale_reference_classes(case: Any) -> List[Tuple[int, str, int]]:
                 how, ent = P.denote(case, fn, mi, b)
                 if how and ent and ent[0] == 'def' and (ent[1], ent[2]) in rx and rx[(ent[1], ent[2])]['R'] != mi:
                     if how in ('from:%d' % ent[1], 'star:%d' % ent[1]):
-                        out.append((mi, st[1], pos))
+                        out.append((final_key(case, fn, rx, mi, st[1]), pos))
     return out
+
+
+def moved_classes(case: Any) -> List[str]:
+    """final keys of the classes that a re-export moves"""
+    fn = P.fullnames(case)
+    out = []
+    for r in P.reexports(case):
+        if P.defs_of(case['mods'][r['D']])[r['x']][0] == 'class':
+            out.append(fn[r['R']] + '.' + r['n'])
+    return out
+
+
+def multi_reexported(case: Any) -> bool:
+    rx = P.reexports(case)
+    keys = [(r['D'], r['x']) for r in rx]
+    return len(keys) != len(set(keys))
 
 
 def features(case: Any) -> Dict[str, Any]:
@@ -105,8 +127,7 @@ def root_causes(case: Any, orders: List[List[int]], dumps: List[Any]) -> Optiona
     return out
 
 
-class Check(PropertyCheck):
-    id = 'C06'
+XX
     props_module = 'Props.C06'
     models = {'project': 'XProject.v'}
     rule = ('projects = corpus + the re-export matrix {package, sibling} x {plain, renamed, star} x {consumer from D, from R, both, '
@@ -158,9 +179,7 @@ class Check(PropertyCheck):
         self.exhaustive = True
         nrand = 3000 if thorough else 140
         for k in range(nrand):
-            r = self.rng.random()
-            c = P.random_project(self.rng, allow_cycles=r < 0.45, allow_dups=r < 0.8)
-            c['label'] = 'random'
+XX
             out.append(c)
         self.stats['random_projects'] = nrand
         return out
@@ -268,8 +287,7 @@ class Check(PropertyCheck):
         cases = list(seeds)
         cases.extend(P.small_family(3, ['from', 'mod']))
         for _ in range(600):
-            r = rng.random()
-            cases.append(P.random_project(rng, allow_cycles=r < 0.45, allow_dups=r < 0.8))
+            cases.append(gen_random(rng))
         known, _ = lib.load_known_findings(self.id)
         for c, orders, im, complete in self.run_cases(cases):
             v = oracle(c, orders, im)
@@ -295,10 +313,13 @@ class Check(PropertyCheck):
         # (a) the stale name of a re-exported object: every class whose resolved bases differ refers to the object
         #     through an import from the defining module; nothing but bases/mro differs
         rc = root_causes(case, v.case['orders'], dumps)
-        fn = P.fullnames(case)
-        stale = {(fn[mi] + '.' + cn, pos) for mi, cn, pos in stale_reference_classes(case)}
+        stale = set(stale_reference_classes(case))
         if rc and all(x in stale for x in rc) and 'C06-stale-defining-module-name' in by:
             return by['C06-stale-defining-module-name']
+        # (a') a class that a re-export moved: compute_mro re-resolves its unresolved bases in the NEW parent module
+        moved = set(moved_classes(case))
+        if rc and all(x in stale or x[0] in moved for x in rc) and 'C06-moved-class-bases-rescoped' in by:
+            return by['C06-moved-class-bases-rescoped']
         if not f['import_cycle']:
             return None
         # (b) order dependences that need an import cycle; only the class hierarchy is compared for these projects
